@@ -50,6 +50,12 @@ def comment_placement(rng):
     src = eol.join(p.replace("\n", eol) for p in parts)
     if rng.random() < 0.8:
         src += eol
+    if rng.random() < 0.12:
+        # MIXED line ends: every line break picks LF / CRLF (rarely a lone CR) on its own, so that consecutive
+        # comment lines, or a comment and the entry after it, do not end alike
+        lines = src.replace("\r\n", "\n").split("\n")
+        src = "".join(l + (rng.choice(["\n", "\n", "\r\n", "\r\n", "\r"]) if i < len(lines) - 1 else "")
+                      for i, l in enumerate(lines))
     return src
 
 
@@ -58,7 +64,7 @@ class C05(Base):
     AREA = "parse"
     LEMMA_FILES = ["FluentProofs/ParserRuntime.lean", "FluentProofs/ParserLoops.lean", "FluentProofs/ParserLines.lean", "FluentProofs/ParserLinesSim.lean", "FluentProofs/ParserLinesWF.lean", "FluentProofs/ConstTieSyntax.lean"]
     RULE = ("comment-placement generator (16 comment line shapes incl. malformed '#x', '####', tab; all levels; before, "
-            "between, inside as indented/column-0 look-alikes, after entries; LF and CRLF; adjacent to Junk) plus the C01 "
+            "between, inside as indented/column-0 look-alikes, after entries; LF, CRLF and mixed line ends; adjacent to Junk) plus the C01 "
             "generator mix. Non-trivial = the source has at least one '#' line AND at least one message/term or Junk; "
             "distinct = distinct source.")
     EXPLANATION = ("Theorems: the two dispatchers coincide on every non-'#' entry start; sources without '#' give identical "
